@@ -12,7 +12,7 @@ HASHES = ['SHA256', 'SHA512', 'SHA1', 'MD5']
 
 
 # operations on ONE live key object: verdicts interleaved with changes of the key's standing
-LIVE_MENU = ['verify-good', 'verify-wrong', 'verify-key', 'expire', 'unexpire', 'revoke', 'derive-pub-verify']
+LIVE_MENU = ['verify-good', 'verify-wrong', 'verify-key', 'expire', 'expire-lapsed-cert', 'unexpire', 'revoke', 'derive-pub-verify']
 
 
 class Prop(object):
@@ -166,6 +166,12 @@ class Prop(object):
                     if op == 'expire':
                         u = key.userids[0]
                         u |= key.certify(u, created=K.dt(t), key_expiration=timedelta(days=1), hash=HashAlgorithm.SHA256)
+                        expired = True
+                    elif op == 'expire-lapsed-cert':
+                        # the newest self-certification carries a key expiry in the past AND has itself expired: the key is expired (or at best without
+                        # a self-signature in force) - never in good standing
+                        u = key.userids[0]
+                        u |= key.certify(u, created=K.dt(t), key_expiration=timedelta(days=1), expires=timedelta(days=2), hash=HashAlgorithm.SHA256)
                         expired = True
                     elif op == 'unexpire':
                         u = key.userids[0]
